@@ -400,7 +400,13 @@ pub(super) fn derive_schema(input: TokenStream) -> syn::Result<TokenStream> {
                     container_attrs.serde.untagged
                 ) {
                     (_, _, true) => {/* Untagged */
-                        schema
+                        if is_unit {/* written as `null` */
+                            quote! {
+                                ::ohkami::openapi::null()
+                            }
+                        } else {
+                            schema
+                        }
                     }
 
                     (None, _, _) => {/* Externally tagged */
